@@ -322,6 +322,29 @@ def run_impl_resume(case: dict, hooks: Optional[Hooks] = None) -> dict:
     return obs
 
 
+def run_impl_steps(case: dict, hooks: Optional[Hooks] = None) -> dict:
+    """Drive the real simulator with `Simulator.step(schedule)` instead of `run()`: one call per
+    entry of case["steps"] (a list of <sched>); stops at the first call that raises.  The
+    observation carries "step_results": [[err|None, returned flag|None, iteration after the call]]."""
+    with noise_stream(case.get("noise", [])) as ns:
+        sim, ctx = build_sim(case, hooks)
+        results = []
+        err = None
+        for sch in case.get("steps", []):
+            try:
+                with warnings.catch_warnings():
+                    warnings.simplefilter("ignore")
+                    done = sim.step(_sched_dict(sch))
+                results.append([None, bool(done), int(sim.iteration)])
+            except Exception as e:  # noqa: BLE001
+                results.append([err_name(e), None, int(sim.iteration)])
+                break
+        obs = observe(sim, ctx, None)
+        obs["step_results"] = results
+        obs["noise_draws"] = ns["k"]
+    return obs
+
+
 # ------------------------------------------------------------------------------- model side
 
 
@@ -371,6 +394,8 @@ def model_request(case: dict, fail_at=None, resume: bool = False, queue: str = "
     }
     if resume:
         req["resume"] = {"type": "scripted", "default": default, "script": script_clean}
+    if "steps" in case:
+        req["steps"] = [sched_wire(x) for x in case["steps"]]
     if queue == "heap":
         req["queue"] = "heap"
     return req
@@ -428,7 +453,10 @@ def tie_sensitive_error(case: dict, obs: dict) -> bool:
     unregistered station) in a period that holds another plug-in with the same timestamp: which
     of the equal-key events the heap hands out first — hence what had been processed when the
     run aborted — is left open by the model."""
-    if obs.get("err") not in ("StationOccupied", "KeyError"):
+    err = obs.get("err")
+    if err is None and obs.get("step_results"):
+        err = obs["step_results"][-1][0]          # driven through step(): error of the last call
+    if err not in ("StationOccupied", "KeyError"):
         return False
     t = obs["iter"]
     if t in obs.get("invoked", []):          # raised later, by _update_schedules
@@ -504,6 +532,9 @@ def compare(case: dict, obs: dict, model: dict, exact_ties: bool = False) -> Lis
     diffs: List[str] = []
     m = decode_model(model)
     compare_state(case, obs, m, diffs, exact_ties=exact_ties)
+    if "step_results" in obs or "step_results" in m:
+        if obs.get("step_results") != m.get("step_results"):
+            diffs.append(f"step() results [err, returned, iteration]: impl {obs.get('step_results')} model {m.get('step_results')}")
     if "first" in obs or "first" in m:
         if ("first" in obs) != ("first" in m):
             diffs.append("resume: only one side failed in the first run")
@@ -710,6 +741,16 @@ def _malform(rng, case: dict, last: int) -> None:
                 s = gen_schedule(rng, case, bad=bad)
             sc["script"].append({"t": t, "sched": s})
         sc["script"].sort(key=lambda e: e["t"])
+
+
+def gen_step_case(rng, max_sessions: int = 8) -> dict:
+    """A scenario driven through `Simulator.step()`: the list of schedules handed to successive calls."""
+    case = gen_case(rng, max_sessions=max_sessions, max_stations=4)
+    case["sched"] = {"type": "empty"}
+    case["max_recompute"] = rng.choice([None, None, None, None, 1, 2, 5])
+    last = max([s["departure"] for s in case["sessions"]] + case["recomputes"] + [0])
+    case["steps"] = [gen_schedule(rng, case) for _ in range(rng.randint(1, min(last + 3, 12)))]
+    return case
 
 
 def is_valid_layout(case: dict) -> bool:
